@@ -746,10 +746,68 @@ def _tree_reduce(
     Lower level, users should use ``reduction`` or ``arg_reduction`` directly.
     """
     return new_collection(
-        _build_tree_reduce_expr(
-            x, aggregate, axis, keepdims, dtype, split_every, combine, name, concatenate, reduced_meta
-        )
+        TreeReduce(x, aggregate, axis, keepdims, dtype, split_every, combine, name, concatenate, reduced_meta)
     )
+
+
+class TreeReduce(ArrayExpr):
+    """A tree reduction over ``array`` whose cascade is built when lowering.
+
+    The depth of the cascade depends on the number of blocks of ``array``.
+    Building it eagerly froze that count at construction time, so a rewrite
+    that re-chunked the input afterwards (e.g. a native sliding-window
+    reduction under an ``argmin``) left a tree too shallow for the blocks it
+    actually received and blocks were silently dropped.  This node keeps the
+    cascade a function of its *current* input: a rewritten input means a new
+    node, and the tree is derived again.
+    """
+
+    _parameters = [
+        "array",
+        "aggregate",
+        "axis",
+        "keepdims",
+        "_dtype",
+        "split_every",
+        "combine",
+        "name_prefix",
+        "concatenate",
+        "reduced_meta",
+    ]
+
+    @cached_property
+    def _tree(self):
+        return _build_tree_reduce_expr(
+            self.array,
+            self.aggregate,
+            self.axis,
+            self.keepdims,
+            self.operand("_dtype"),
+            self.split_every,
+            self.combine,
+            self.name_prefix,
+            self.concatenate,
+            self.reduced_meta,
+        )
+
+    @cached_property
+    def _name(self):
+        return "tree-" + self._tree._name
+
+    @cached_property
+    def _meta(self):
+        return self._tree._meta
+
+    @cached_property
+    def dtype(self):
+        return self._tree.dtype
+
+    @cached_property
+    def chunks(self):
+        return self._tree.chunks
+
+    def _lower(self):
+        return self._tree
 
 
 def _build_tree_reduce_expr(
